@@ -107,6 +107,7 @@ def check(ctx):
     # runs: two streams, two contexts, all write flag combinations, include / exclude lists
     pairs = [(a, b) for a in IDS for b in IDS if a != b]
     r.shuffle(pairs)
+    pairs = [("a.b", "a_b"), ("a_b", "a.b")] + pairs        # the colliding ids are always exercised
     item_sets = lambda s1, s2: [[], [{"kind": "stream", "v": s1}], [{"kind": "test", "v": "spike"}],  # noqa: E731
                                 [{"kind": "func", "v": "gross"}, {"kind": "stream", "v": s2}],
                                 [{"kind": "func", "v": "spike"}], [{"kind": "stream", "v": "zzz"}]]
